@@ -1,16 +1,528 @@
 /- helper lemmas for TjdProps/C09b.lean -/
 import Mathlib.Algebra.Order.Field.Basic
+import Mathlib.Algebra.Order.Chebyshev
+import Mathlib.Tactic.Ring
+import Mathlib.Tactic.Linarith
+import Mathlib.Tactic.FieldSimp
+import Mathlib.Tactic.Positivity
 import TjdModel.Agg.Spec2
 import TjdLemmas.QPLemmas
 import TjdLemmas.GramLemmas
 import TjdLemmas.QPGram
 import TjdLemmas.EquivC09
 namespace Tjd.Agg.C09b
-open Tjd Tjd.Agg
+open Tjd Tjd.Agg Matrix
 set_option linter.unusedSectionVars false
 set_option linter.unusedSimpArgs false
 set_option linter.unusedVariables false
 
 variable {α : Type} [Field α] [LinearOrder α] [IsStrictOrderedRing α]
+
+/-! ### abstract statements on `Fin m → α` -/
+section abstract
+variable {m n : Nat}
+
+/-- a quadratic `2 t a + t² D` that is non-negative on `[0,1]` has `a ≥ 0` -/
+theorem scalar_first_order (a D : α) (hD : 0 ≤ D)
+    (h : ∀ t : α, 0 ≤ t → t ≤ 1 → 0 ≤ 2 * t * a + t * t * D) : 0 ≤ a := by
+  by_contra hlt
+  rw [not_le] at hlt
+  by_cases hc : D ≤ -a
+  · have := h 1 zero_le_one le_rfl
+    linarith
+  · rw [not_le] at hc
+    have hDpos : 0 < D := by linarith
+    have ht0 : 0 ≤ -a / D := div_nonneg (by linarith) hD
+    have ht1 : -a / D ≤ 1 := by rw [div_le_one hDpos]; exact hc.le
+    have h' := h (-a / D) ht0 ht1
+    have e : 2 * (-a / D) * a + (-a / D) * (-a / D) * D = -(a * a / D) := by
+      field_simp; ring
+    rw [e] at h'
+    have : 0 < a * a / D := div_pos (mul_pos_of_neg_of_neg hlt hlt) hDpos
+    linarith
+
+/-- first-order optimality of a minimiser of `|f B|²` over `{f | fu ≤ f}` -/
+theorem first_order_fn (B : Matrix (Fin m) (Fin n) α) (fu fw fv : Fin m → α) (h1 : fu ≤ fw)
+    (hv : fu ≤ fv)
+    (hmin : ∀ f, fu ≤ f → (fw ᵥ* B) ⬝ᵥ (fw ᵥ* B) ≤ (f ᵥ* B) ⬝ᵥ (f ᵥ* B)) :
+    0 ≤ (fw ᵥ* B) ⬝ᵥ (fv ᵥ* B - fw ᵥ* B) := by
+  apply scalar_first_order _ ((fv ᵥ* B - fw ᵥ* B) ⬝ᵥ (fv ᵥ* B - fw ᵥ* B))
+    (dotProduct_self_nonneg' _)
+  intro t ht0 ht1
+  have hf : fu ≤ fw + t • (fv - fw) := by
+    intro k
+    simp only [Pi.add_apply, Pi.smul_apply, Pi.sub_apply, smul_eq_mul]
+    have a := mul_nonneg (sub_nonneg.2 ht1) (sub_nonneg.2 (h1 k))
+    have b := mul_nonneg ht0 (sub_nonneg.2 (hv k))
+    linarith
+  have h := hmin _ hf
+  rw [add_vecMul, smul_vecMul, sub_vecMul] at h
+  generalize fw ᵥ* B = x at *
+  generalize fv ᵥ* B = y at *
+  simp only [add_dotProduct, dotProduct_add, smul_dotProduct, dotProduct_smul, smul_eq_mul] at h
+  rw [dotProduct_comm (y - x) x] at h
+  linarith
+
+/-- `|x' − x|² ≤ |x'|² − |x|²` for the output `x` of a minimiser and the output `x'` of a
+    feasible point -/
+theorem dist_le_gap_fn (B : Matrix (Fin m) (Fin n) α) (fu fw fv : Fin m → α) (h1 : fu ≤ fw)
+    (hv : fu ≤ fv)
+    (hmin : ∀ f, fu ≤ f → (fw ᵥ* B) ⬝ᵥ (fw ᵥ* B) ≤ (f ᵥ* B) ⬝ᵥ (f ᵥ* B)) :
+    (fv ᵥ* B - fw ᵥ* B) ⬝ᵥ (fv ᵥ* B - fw ᵥ* B) ≤
+      (fv ᵥ* B) ⬝ᵥ (fv ᵥ* B) - (fw ᵥ* B) ⬝ᵥ (fw ᵥ* B) := by
+  have h := first_order_fn B fu fw fv h1 hv hmin
+  generalize fw ᵥ* B = x at *
+  generalize fv ᵥ* B = y at *
+  simp only [sub_dotProduct, dotProduct_sub] at h ⊢
+  rw [dotProduct_comm y x]
+  linarith
+
+/-- regularisation error, abstract form: `c = 1/s²`, `e = reg_eps` -/
+theorem reg_close_fn (B : Matrix (Fin m) (Fin n) α) (fu f0 fe : Fin m → α) (c e : α) (hc : 0 < c)
+    (he : 0 ≤ e) (h0 : fu ≤ f0) (h1 : fu ≤ fe)
+    (hmin0 : ∀ f, fu ≤ f → (f0 ᵥ* B) ⬝ᵥ (f0 ᵥ* B) ≤ (f ᵥ* B) ⬝ᵥ (f ᵥ* B))
+    (hmine : c * ((fe ᵥ* B) ⬝ᵥ (fe ᵥ* B)) + e * (fe ⬝ᵥ fe) ≤
+      c * ((f0 ᵥ* B) ⬝ᵥ (f0 ᵥ* B)) + e * (f0 ⬝ᵥ f0)) :
+    (fe ᵥ* B - f0 ᵥ* B) ⬝ᵥ (fe ᵥ* B - f0 ᵥ* B) ≤ e * c⁻¹ * (f0 ⬝ᵥ f0) := by
+  have h := dist_le_gap_fn B fu f0 fe h0 h1 hmin0
+  have hn := mul_nonneg he (dotProduct_self_nonneg' fe)
+  have h2 : c * ((fe ᵥ* B) ⬝ᵥ (fe ᵥ* B) - (f0 ᵥ* B) ⬝ᵥ (f0 ᵥ* B)) ≤ e * (f0 ⬝ᵥ f0) := by
+    rw [mul_sub]; linarith
+  have h3 : (fe ᵥ* B) ⬝ᵥ (fe ᵥ* B) - (f0 ᵥ* B) ⬝ᵥ (f0 ᵥ* B) ≤ c⁻¹ * (e * (f0 ⬝ᵥ f0)) :=
+    (le_inv_mul_iff₀ hc).mpr h2
+  calc _ ≤ _ := h
+    _ ≤ _ := h3
+    _ = _ := by ring
+
+theorem dotProduct_self_eq_zero'' (f : Fin n → α) (h : f ⬝ᵥ f = 0) : f = 0 := by
+  by_contra hne
+  exact (dotProduct_self_pos' f hne).ne' h
+
+/-- the output of a minimiser is unique -/
+theorem unique_fn (B : Matrix (Fin m) (Fin n) α) (fu fw fw' : Fin m → α) (h1 : fu ≤ fw)
+    (h1' : fu ≤ fw')
+    (hmin : ∀ f, fu ≤ f → (fw ᵥ* B) ⬝ᵥ (fw ᵥ* B) ≤ (f ᵥ* B) ⬝ᵥ (f ᵥ* B))
+    (hmin' : ∀ f, fu ≤ f → (fw' ᵥ* B) ⬝ᵥ (fw' ᵥ* B) ≤ (f ᵥ* B) ⬝ᵥ (f ᵥ* B)) :
+    fw ᵥ* B = fw' ᵥ* B := by
+  have h := dist_le_gap_fn B fu fw fw' h1 h1' hmin
+  have h2 := hmin' fw h1
+  have hn := dotProduct_self_nonneg' (fw' ᵥ* B - fw ᵥ* B)
+  have hz : (fw' ᵥ* B - fw ᵥ* B) ⬝ᵥ (fw' ᵥ* B - fw ᵥ* B) = 0 := by linarith
+  exact (sub_eq_zero.mp (dotProduct_self_eq_zero'' _ hz)).symm
+
+theorem vecMul_scaled (B B' : Matrix (Fin m) (Fin n) α) (fc : Fin m → α)
+    (hB' : ∀ k j, B' k j = fc k * B k j) (g : Fin m → α) :
+    g ᵥ* B' = (fun k => g k * fc k) ᵥ* B := by
+  funext j
+  simp only [vecMul, dotProduct, hB']
+  apply Finset.sum_congr rfl
+  intro k _
+  ring
+
+/-- positive row scaling: minimisers for `u_i e_i` are mapped to minimisers, output times `c_i` -/
+theorem scale_fn (B B' : Matrix (Fin m) (Fin n) α) (fc : Fin m → α)
+    (hB' : ∀ k j, B' k j = fc k * B k j) (hpos : ∀ k, 0 < fc k) (i : Fin m) (fu fw : Fin m → α)
+    (hu : ∀ k, k ≠ i → fu k = 0) (h1 : fu ≤ fw)
+    (hmin : ∀ f, fu ≤ f → (fw ᵥ* B) ⬝ᵥ (fw ᵥ* B) ≤ (f ᵥ* B) ⬝ᵥ (f ᵥ* B)) :
+    fu ≤ (fun k => fw k * fc i / fc k) ∧
+      (fun k => fw k * fc i / fc k) ᵥ* B' = fc i • (fw ᵥ* B) ∧
+      ∀ g, fu ≤ g → ((fun k => fw k * fc i / fc k) ᵥ* B') ⬝ᵥ ((fun k => fw k * fc i / fc k) ᵥ* B') ≤
+        (g ᵥ* B') ⬝ᵥ (g ᵥ* B') := by
+  have hout : (fun k => fw k * fc i / fc k) ᵥ* B' = fc i • (fw ᵥ* B) := by
+    rw [vecMul_scaled B B' fc hB', ← smul_vecMul]
+    congr 1
+    funext k
+    have := (hpos k).ne'
+    simp only [Pi.smul_apply, smul_eq_mul]
+    field_simp
+  refine ⟨?_, hout, ?_⟩
+  · intro k
+    by_cases hk : k = i
+    · subst hk
+      have := (hpos k).ne'
+      have e : fw k * fc k / fc k = fw k := by field_simp
+      simp only [e]
+      exact h1 k
+    · have h0 : 0 ≤ fw k := by have := h1 k; rwa [hu k hk] at this
+      simp only [hu k hk]
+      exact div_nonneg (mul_nonneg h0 (hpos i).le) (hpos k).le
+  · intro g hg
+    have hg' : fu ≤ fun k => g k * fc k / fc i := by
+      intro k
+      by_cases hk : k = i
+      · subst hk
+        have := (hpos k).ne'
+        have e : g k * fc k / fc k = g k := by field_simp
+        simp only [e]
+        exact hg k
+      · have h0 : 0 ≤ g k := by have := hg k; rwa [hu k hk] at this
+        simp only [hu k hk]
+        exact div_nonneg (mul_nonneg h0 (hpos k).le) (hpos i).le
+    have hgo : g ᵥ* B' = fc i • ((fun k => g k * fc k / fc i) ᵥ* B) := by
+      rw [vecMul_scaled B B' fc hB', ← smul_vecMul]
+      congr 1
+      funext k
+      have := (hpos i).ne'
+      simp only [Pi.smul_apply, smul_eq_mul]
+      field_simp
+    rw [hout, hgo]
+    simp only [smul_dotProduct, dotProduct_smul, smul_eq_mul]
+    have := hmin _ hg'
+    have hc := (hpos i).le
+    exact mul_le_mul_of_nonneg_left (mul_le_mul_of_nonneg_left this hc) hc
+
+end abstract
+
+/-! ### list level -/
+
+-- `prefRow`, `rescaleW`: model definitions (TjdModel/Agg/Gramian.lean)
+
+def upOut (n m : Nat) (J : Mat α) (W : Nat → Vec α) : Vec α :=
+  vsum n ((List.range m).map fun i => combine n J (W i))
+
+theorem prefRow_length (m i : Nat) (ui : α) : (prefRow m i ui).length = m := by simp [prefRow]
+
+theorem rescaleW_length (m i : Nat) (c w : Vec α) : (rescaleW m i c w).length = m := by
+  simp [rescaleW]
+
+theorem toFn_prefRow (m i : Nat) (ui : α) :
+    toFn m (prefRow m i ui) = fun k : Fin m => if (k : Nat) = i then ui else 0 := by
+  funext k
+  simp [toFn, prefRow, List.getD_eq_getElem?_getD, List.getElem?_range k.2]
+
+theorem toFn_rescaleW (m i : Nat) (c w : Vec α) :
+    toFn m (rescaleW m i c w) = fun k : Fin m => toFn m w k * c.getD i 0 / toFn m c k := by
+  funext k
+  simp [toFn, rescaleW, List.getD_eq_getElem?_getD, List.getElem?_range k.2]
+
+theorem toMat_scaleRows (J : Mat α) (m n : Nat) (hJ : MatWF J m n) (c : Vec α) (hc : c.length = m)
+    (k : Fin m) (j : Fin n) :
+    toMat m n (scaleRows c J) k j = toFn m c k * toMat m n J k j := by
+  rw [toMat_apply, Eqv.scaleRows_getD J m hJ.1 c hc k k.2, smul_getD]
+  rfl
+
+/-- `IsQPMin (gram J)` read on `Fin m → α` with `B = toMat m n J` -/
+theorem isQPMin_gram_iff (J : Mat α) (m n : Nat) (hJ : MatWF J m n) (u w : Vec α) (hu : u.length = m) :
+    IsQPMin (gram J) u w ↔ w.length = m ∧ toFn m u ≤ toFn m w ∧
+      ∀ f : Fin m → α, toFn m u ≤ f →
+        (toFn m w ᵥ* toMat m n J) ⬝ᵥ (toFn m w ᵥ* toMat m n J) ≤
+          (f ᵥ* toMat m n J) ⬝ᵥ (f ᵥ* toMat m n J) := by
+  rw [isQPMin_iff m _ u w hu, toMat_gram J m n hJ]
+  simp only [qfF_gram]
+
+theorem sqdist_fn (n : Nat) (x y : Vec α) (hx : x.length = n) (hy : y.length = n) :
+    dot (vsub x y) (vsub x y) = (toFn n x - toFn n y) ⬝ᵥ (toFn n x - toFn n y) := by
+  rw [dot_eq_left n _ _ (by rw [vsub_length _ _ (by omega)]; omega), toFn_vsub n x y (by omega)]
+
+theorem reg_close (J : Mat α) (m n : Nat) (hJ : MatWF J m n) (s normEps regEps : α)
+    (hs : 0 < s) (hns : ¬ s < normEps) (hre : 0 ≤ regEps) (u w0 we : Vec α) (hu : u.length = m)
+    (h0 : IsQPMin (gram J) u w0) (he : IsQPMin (regNormGram J s normEps regEps) u we) :
+    dot (vsub (combine n J we) (combine n J w0)) (vsub (combine n J we) (combine n J w0)) ≤
+      regEps * (s * s) * dot w0 w0 := by
+  rw [isQPMin_gram_iff J m n hJ u w0 hu] at h0
+  rw [isQPMin_iff m _ u we hu, toMat_regNormGram J m n hJ] at he
+  obtain ⟨hw0, hle0, hmin0⟩ := h0
+  obtain ⟨hwe, hlee, hmine⟩ := he
+  simp only [qfF_regNormGram] at hmine
+  have hg : gramCoef s normEps = (s * s)⁻¹ := by simp [gramCoef, hns]
+  have h := reg_close_fn (toMat m n J) (toFn m u) (toFn m w0) (toFn m we) (gramCoef s normEps)
+    regEps (by rw [hg]; exact inv_pos.mpr (mul_pos hs hs)) hre hle0 hlee hmin0 (hmine _ hle0)
+  rw [hg, inv_inv] at h
+  rw [sqdist_fn n _ _ (combine_length J m n hJ we) (combine_length J m n hJ w0),
+    toFn_combine J m n hJ we hwe, toFn_combine J m n hJ w0 hw0, dot_eq_left m w0 w0 hw0.le]
+  exact h
+
+theorem output_unique (J : Mat α) (m n : Nat) (hJ : MatWF J m n) (u w w' : Vec α)
+    (hu : u.length = m) (h : IsQPMin (gram J) u w) (h' : IsQPMin (gram J) u w') :
+    combine n J w = combine n J w' := by
+  rw [isQPMin_gram_iff J m n hJ u _ hu] at h h'
+  obtain ⟨hw, hle, hmin⟩ := h
+  obtain ⟨hw', hle', hmin'⟩ := h'
+  apply toFn_injective n _ _ (combine_length J m n hJ w) (combine_length J m n hJ w')
+  rw [toFn_combine J m n hJ w hw, toFn_combine J m n hJ w' hw']
+  exact unique_fn _ _ _ _ hle hle' hmin hmin'
+
+theorem scaleRows_min (J : Mat α) (m n : Nat) (hJ : MatWF J m n) (c : Vec α) (hc : c.length = m)
+    (hpos : ∀ k, k < m → 0 < c.getD k 0) (i : Nat) (hi : i < m) (ui : α) (w : Vec α)
+    (h : IsQPMin (gram J) (prefRow m i ui) w) :
+    IsQPMin (gram (scaleRows c J)) (prefRow m i ui) (rescaleW m i c w) ∧
+    combine n (scaleRows c J) (rescaleW m i c w) = smul (c.getD i 0) (combine n J w) := by
+  have hJ' := Eqv.scaleRows_matWF J m n hJ c hc
+  have hu := prefRow_length (α := α) m i ui
+  rw [isQPMin_gram_iff J m n hJ _ w hu] at h
+  obtain ⟨hw, hle, hmin⟩ := h
+  have hfu : ∀ k : Fin m, k ≠ ⟨i, hi⟩ → toFn m (prefRow m i ui) k = 0 := by
+    intro k hk
+    rw [toFn_prefRow]
+    have : (k : Nat) ≠ i := fun e => hk (Fin.ext e)
+    simp [this]
+  obtain ⟨a1, a2, a3⟩ := scale_fn (toMat m n J) (toMat m n (scaleRows c J)) (toFn m c)
+    (toMat_scaleRows J m n hJ c hc) (fun k => hpos k k.2) ⟨i, hi⟩ (toFn m (prefRow m i ui))
+    (toFn m w) hfu hle hmin
+  have e : (fun k : Fin m => toFn m w k * toFn m c ⟨i, hi⟩ / toFn m c k) =
+      toFn m (rescaleW m i c w) := by
+    rw [toFn_rescaleW]; rfl
+  rw [e] at a1 a2 a3
+  constructor
+  · rw [isQPMin_gram_iff (scaleRows c J) m n hJ' _ _ hu]
+    exact ⟨rescaleW_length m i c w, a1, a3⟩
+  · apply toFn_injective n _ _ (combine_length _ m n hJ' _)
+      (by rw [smul_length, combine_length J m n hJ])
+    rw [toFn_combine _ m n hJ' _ (rescaleW_length m i c w), a2, toFn_smul,
+      toFn_combine J m n hJ w hw]
+    rfl
+
+theorem unreg_linear (J : Mat α) (m n : Nat) (hJ : MatWF J m n) (c u : Vec α) (hc : c.length = m)
+    (hu : u.length = m) (hpos : ∀ k, k < m → 0 < c.getD k 0) (W0 W' : Nat → Vec α)
+    (h0 : ∀ i, i < m → IsQPMin (gram J) (prefRow m i (u.getD i 0)) (W0 i))
+    (h' : ∀ i, i < m → IsQPMin (gram (scaleRows c J)) (prefRow m i (u.getD i 0)) (W' i)) :
+    upOut n m (scaleRows c J) W' =
+      vsum n ((List.range m).map fun i => smul (c.getD i 0) (combine n J (W0 i))) := by
+  unfold upOut
+  congr 1
+  apply List.map_congr_left
+  intro i hi
+  have hi' : i < m := List.mem_range.mp hi
+  obtain ⟨b1, b2⟩ := scaleRows_min J m n hJ c hc hpos i hi' (u.getD i 0) (W0 i) (h0 i hi')
+  rw [← b2]
+  exact output_unique (scaleRows c J) m n (Eqv.scaleRows_matWF J m n hJ c hc) _ _ _
+    (prefRow_length m i _) (h' i hi') b1
+
+/-! ### the capstone -/
+section capstone_abstract
+variable {m n : Nat}
+
+theorem sqnorm_sum_le (d : Fin m → Fin n → α) :
+    (∑ i, d i) ⬝ᵥ (∑ i, d i) ≤ (m : α) * ∑ i, d i ⬝ᵥ d i := by
+  simp only [dotProduct, Finset.sum_apply]
+  rw [Finset.sum_comm, Finset.mul_sum]
+  apply Finset.sum_le_sum
+  intro j _
+  have h := sq_sum_le_card_mul_sum_sq (s := (Finset.univ : Finset (Fin m))) (f := fun i => d i j)
+  simp only [Finset.card_univ, Fintype.card_fin, sq] at h
+  exact h
+
+theorem sqnorm_three (X Y Z : Fin n → α) (a b : α) :
+    (X - (a • Y + b • Z)) ⬝ᵥ (X - (a • Y + b • Z)) ≤
+      3 * (X ⬝ᵥ X + a * a * (Y ⬝ᵥ Y) + b * b * (Z ⬝ᵥ Z)) := by
+  simp only [dotProduct, Finset.mul_sum, ← Finset.sum_add_distrib, Pi.sub_apply, Pi.add_apply,
+    Pi.smul_apply, smul_eq_mul]
+  apply Finset.sum_le_sum
+  intro j _
+  nlinarith [sq_nonneg (X j + a * Y j), sq_nonneg (X j + b * Z j), sq_nonneg (a * Y j - b * Z j)]
+
+theorem defect_fn (P Q R P0 Q0 R0 : Fin m → Fin n → α) (a b : α) (bp bq br : Fin m → α)
+    (hlin : ∑ i, P0 i = a • ∑ i, Q0 i + b • ∑ i, R0 i)
+    (hp : ∀ i, (P i - P0 i) ⬝ᵥ (P i - P0 i) ≤ bp i)
+    (hq : ∀ i, (Q i - Q0 i) ⬝ᵥ (Q i - Q0 i) ≤ bq i)
+    (hr : ∀ i, (R i - R0 i) ⬝ᵥ (R i - R0 i) ≤ br i) :
+    (∑ i, P i - (a • ∑ i, Q i + b • ∑ i, R i)) ⬝ᵥ (∑ i, P i - (a • ∑ i, Q i + b • ∑ i, R i)) ≤
+      3 * (m : α) * (∑ i, bp i + a * a * ∑ i, bq i + b * b * ∑ i, br i) := by
+  have e : ∑ i, P i - (a • ∑ i, Q i + b • ∑ i, R i) =
+      ∑ i, (P i - P0 i) - (a • ∑ i, (Q i - Q0 i) + b • ∑ i, (R i - R0 i)) := by
+    rw [Finset.sum_sub_distrib, Finset.sum_sub_distrib, Finset.sum_sub_distrib, hlin]
+    funext j
+    simp only [Pi.sub_apply, Pi.add_apply, Pi.smul_apply, smul_eq_mul]
+    ring
+  rw [e]
+  have hm : (0 : α) ≤ (m : α) := Nat.cast_nonneg m
+  have h3 := sqnorm_three (∑ i, (P i - P0 i)) (∑ i, (Q i - Q0 i)) (∑ i, (R i - R0 i)) a b
+  have sp := (sqnorm_sum_le fun i => P i - P0 i).trans
+    (mul_le_mul_of_nonneg_left (Finset.sum_le_sum fun i _ => hp i) hm)
+  have sq := (sqnorm_sum_le fun i => Q i - Q0 i).trans
+    (mul_le_mul_of_nonneg_left (Finset.sum_le_sum fun i _ => hq i) hm)
+  have sr := (sqnorm_sum_le fun i => R i - R0 i).trans
+    (mul_le_mul_of_nonneg_left (Finset.sum_le_sum fun i _ => hr i) hm)
+  have sq' := mul_le_mul_of_nonneg_left sq (mul_self_nonneg a)
+  have sr' := mul_le_mul_of_nonneg_left sr (mul_self_nonneg b)
+  linarith
+
+end capstone_abstract
+
+theorem range_map_getD {β : Type} (m : Nat) (F : Nat → β) (d : β) (i : Nat) (hi : i < m) :
+    ((List.range m).map F).getD i d = F i := by
+  simp [List.getD_eq_getElem?_getD, List.getElem?_range hi]
+
+theorem range_map_sum (m : Nat) (F : Nat → α) :
+    ((List.range m).map F).sum = ∑ i : Fin m, F i := by
+  rw [list_sum_eq_sum m _ (by simp)]
+  apply Finset.sum_congr rfl
+  intro i _
+  exact range_map_getD m F 0 i i.2
+
+theorem upOut_length (J : Mat α) (m n : Nat) (hJ : MatWF J m n) (W : Nat → Vec α) :
+    (upOut n m J W).length = n := by
+  apply vsum_length
+  intro x hx
+  obtain ⟨i, _, rfl⟩ := List.mem_map.mp hx
+  exact combine_length J m n hJ _
+
+theorem toFn_upOut (J : Mat α) (m n : Nat) (hJ : MatWF J m n) (W : Nat → Vec α) :
+    toFn n (upOut n m J W) = ∑ i : Fin m, toFn n (combine n J (W i)) := by
+  rw [upOut, toFn_vsum m n _ (by simp)]
+  · apply Finset.sum_congr rfl
+    intro i _
+    rw [range_map_getD m _ [] i i.2]
+  · intro x hx
+    obtain ⟨i, _, rfl⟩ := List.mem_map.mp hx
+    exact combine_length J m n hJ _
+
+/-- regularisation error of one projection of the scaled problem, against `c_i · x_i` -/
+theorem reg_bound_scaled (J : Mat α) (m n : Nat) (hJ : MatWF J m n) (u cc : Vec α)
+    (hcc : cc.length = m) (hpos : ∀ k, k < m → 0 < cc.getD k 0) (s normEps regEps : α)
+    (hs : 0 < s) (hns : ¬ s < normEps) (hre : 0 ≤ regEps) (W0 We : Nat → Vec α)
+    (h0 : ∀ i, i < m → IsQPMin (gram J) (prefRow m i (u.getD i 0)) (W0 i))
+    (he : ∀ i, i < m → IsQPMin (regNormGram (scaleRows cc J) s normEps regEps)
+            (prefRow m i (u.getD i 0)) (We i)) (i : Fin m) :
+    (toFn n (combine n (scaleRows cc J) (We i)) - toFn m cc i • toFn n (combine n J (W0 i))) ⬝ᵥ
+      (toFn n (combine n (scaleRows cc J) (We i)) - toFn m cc i • toFn n (combine n J (W0 i))) ≤
+      regEps * (s * s) * dot (rescaleW m i cc (W0 i)) (rescaleW m i cc (W0 i)) := by
+  have hJ' := Eqv.scaleRows_matWF J m n hJ cc hcc
+  obtain ⟨b1, b2⟩ := scaleRows_min J m n hJ cc hcc hpos i i.2 (u.getD i 0) (W0 i) (h0 i i.2)
+  have h := reg_close (scaleRows cc J) m n hJ' s normEps regEps hs hns hre _ _ (We i)
+    (prefRow_length m i _) b1 (he i i.2)
+  rw [sqdist_fn n _ _ (combine_length _ m n hJ' _) (combine_length _ m n hJ' _), b2, toFn_smul] at h
+  exact h
+
+theorem linearity_defect_sq (J : Mat α) (m n : Nat) (hJ : MatWF J m n) (u c1 c2 : Vec α) (a b : α)
+    (hu : u.length = m) (h1 : c1.length = m) (h2 : c2.length = m)
+    (hp1 : ∀ k, k < m → 0 < c1.getD k 0) (hp2 : ∀ k, k < m → 0 < c2.getD k 0) (ha : 0 < a) (hb : 0 < b)
+    (s s1 s2 normEps regEps : α) (hs : 0 < s) (hs1 : 0 < s1) (hs2 : 0 < s2)
+    (hns : ¬ s < normEps) (hns1 : ¬ s1 < normEps) (hns2 : ¬ s2 < normEps) (hre : 0 ≤ regEps)
+    (W0 We We1 We2 : Nat → Vec α)
+    (h0 : ∀ i, i < m → IsQPMin (gram J) (prefRow m i (u.getD i 0)) (W0 i))
+    (he : ∀ i, i < m → IsQPMin (regNormGram (scaleRows (vadd (smul a c1) (smul b c2)) J) s normEps regEps)
+            (prefRow m i (u.getD i 0)) (We i))
+    (he1 : ∀ i, i < m → IsQPMin (regNormGram (scaleRows c1 J) s1 normEps regEps)
+            (prefRow m i (u.getD i 0)) (We1 i))
+    (he2 : ∀ i, i < m → IsQPMin (regNormGram (scaleRows c2 J) s2 normEps regEps)
+            (prefRow m i (u.getD i 0)) (We2 i)) :
+    dot (vsub (upOut n m (scaleRows (vadd (smul a c1) (smul b c2)) J) We)
+              (vadd (smul a (upOut n m (scaleRows c1 J) We1)) (smul b (upOut n m (scaleRows c2 J) We2))))
+        (vsub (upOut n m (scaleRows (vadd (smul a c1) (smul b c2)) J) We)
+              (vadd (smul a (upOut n m (scaleRows c1 J) We1)) (smul b (upOut n m (scaleRows c2 J) We2)))) ≤
+      3 * (m : α) * regEps *
+        (s * s * ((List.range m).map fun i =>
+            dot (rescaleW m i (vadd (smul a c1) (smul b c2)) (W0 i))
+              (rescaleW m i (vadd (smul a c1) (smul b c2)) (W0 i))).sum +
+          a * a * (s1 * s1) * ((List.range m).map fun i =>
+            dot (rescaleW m i c1 (W0 i)) (rescaleW m i c1 (W0 i))).sum +
+          b * b * (s2 * s2) * ((List.range m).map fun i =>
+            dot (rescaleW m i c2 (W0 i)) (rescaleW m i c2 (W0 i))).sum) := by
+  have h12 : c1.length = c2.length := by omega
+  generalize hcdef : vadd (smul a c1) (smul b c2) = c at *
+  have hcl : c.length = m := by rw [← hcdef, Eqv.lincomb_length a b c1 c2 h12, h1]
+  have hcg : ∀ k, c.getD k 0 = a * c1.getD k 0 + b * c2.getD k 0 := by
+    intro k; rw [← hcdef, Eqv.lincomb_getD a b c1 c2 h12]
+  have hpc : ∀ k, k < m → 0 < c.getD k 0 := by
+    intro k hk
+    rw [hcg]
+    exact add_pos (mul_pos ha (hp1 k hk)) (mul_pos hb (hp2 k hk))
+  have hJc := Eqv.scaleRows_matWF J m n hJ c hcl
+  have hJ1 := Eqv.scaleRows_matWF J m n hJ c1 h1
+  have hJ2 := Eqv.scaleRows_matWF J m n hJ c2 h2
+  have l0 := upOut_length _ m n hJc We
+  have l1 := upOut_length _ m n hJ1 We1
+  have l2 := upOut_length _ m n hJ2 We2
+  have l12 : (smul a (upOut n m (scaleRows c1 J) We1)).length =
+      (smul b (upOut n m (scaleRows c2 J) We2)).length := by rw [smul_length, smul_length, l1, l2]
+  have l3 : (vadd (smul a (upOut n m (scaleRows c1 J) We1))
+      (smul b (upOut n m (scaleRows c2 J) We2))).length = n := by
+    rw [vadd_length _ _ l12, smul_length, l1]
+  rw [sqdist_fn n _ _ l0 l3, toFn_vadd n _ _ l12, toFn_smul, toFn_smul,
+    toFn_upOut _ m n hJc, toFn_upOut _ m n hJ1, toFn_upOut _ m n hJ2]
+  have hlin : ∑ i : Fin m, toFn m c i • toFn n (combine n J (W0 i)) =
+      a • ∑ i : Fin m, toFn m c1 i • toFn n (combine n J (W0 i)) +
+        b • ∑ i : Fin m, toFn m c2 i • toFn n (combine n J (W0 i)) := by
+    rw [Finset.smul_sum, Finset.smul_sum, ← Finset.sum_add_distrib]
+    apply Finset.sum_congr rfl
+    intro i _
+    rw [toFn_apply, hcg, smul_smul, smul_smul, ← add_smul]
+    rfl
+  have h := defect_fn
+    (fun i : Fin m => toFn n (combine n (scaleRows c J) (We i)))
+    (fun i : Fin m => toFn n (combine n (scaleRows c1 J) (We1 i)))
+    (fun i : Fin m => toFn n (combine n (scaleRows c2 J) (We2 i)))
+    (fun i : Fin m => toFn m c i • toFn n (combine n J (W0 i)))
+    (fun i : Fin m => toFn m c1 i • toFn n (combine n J (W0 i)))
+    (fun i : Fin m => toFn m c2 i • toFn n (combine n J (W0 i))) a b
+    (fun i : Fin m => regEps * (s * s) * dot (rescaleW m i c (W0 i)) (rescaleW m i c (W0 i)))
+    (fun i : Fin m => regEps * (s1 * s1) * dot (rescaleW m i c1 (W0 i)) (rescaleW m i c1 (W0 i)))
+    (fun i : Fin m => regEps * (s2 * s2) * dot (rescaleW m i c2 (W0 i)) (rescaleW m i c2 (W0 i)))
+    hlin
+    (reg_bound_scaled J m n hJ u c hcl hpc s normEps regEps hs hns hre W0 We h0 he)
+    (reg_bound_scaled J m n hJ u c1 h1 hp1 s1 normEps regEps hs1 hns1 hre W0 We1 h0 he1)
+    (reg_bound_scaled J m n hJ u c2 h2 hp2 s2 normEps regEps hs2 hns2 hre W0 We2 h0 he2)
+  refine h.trans (le_of_eq ?_)
+  rw [range_map_sum, range_map_sum, range_map_sum, ← Finset.mul_sum, ← Finset.mul_sum,
+    ← Finset.mul_sum]
+  ring
+
+/-! ### the computed bound: `upgradRows` on the un-regularised Gramian -/
+
+theorem upgradRows_rows (G : Mat α) (u : Vec α) (ws : List (Vec α)) (h : upgradRows G u = some ws) :
+    ws.length = u.length ∧ ∀ i, i < u.length → ∃ mg',
+      qpProject G (prefRow u.length i (u.getD i 0)) = some (ws.getD i [], mg') := by
+  unfold upgradRows at h
+  simp only at h
+  split at h
+  · rename_i hall
+    have hmap := all_isSome_map_some _ hall
+    simp only [Option.some.injEq] at h
+    generalize hps : List.filterMap id _ = ps at hmap h
+    have hlen : ps.length = u.length := by
+      have := congrArg List.length hmap
+      simpa using this
+    subst h
+    refine ⟨by simpa using hlen, fun i hi => ?_⟩
+    refine ⟨(ps.getD i ([], 0)).2, ?_⟩
+    have := congrArg (fun l => l[i]?) hmap
+    simp only [List.getElem?_map, List.getElem?_range hi, Option.map_some, Option.some.injEq,
+      List.getElem?_eq_getElem (hlen ▸ hi : i < ps.length)] at this
+    rw [← this]
+    simp [List.getD_eq_getElem?_getD, List.getElem?_eq_getElem (hlen ▸ hi : i < ps.length)]
+  · simp at h
+
+theorem upgradRows_sound' (J : Mat α) (m n : Nat) (hJ : MatWF J m n) (u : Vec α) (hu : u.length = m)
+    (ws : List (Vec α)) (h : upgradRows (gram J) u = some ws) :
+    ws.length = m ∧ ∀ i, i < m → IsQPMin (gram J) (prefRow m i (u.getD i 0)) (ws.getD i []) := by
+  subst hu
+  obtain ⟨hlen, hrows⟩ := upgradRows_rows (gram J) u ws h
+  refine ⟨hlen, fun i hi => ?_⟩
+  obtain ⟨mg', hq⟩ := hrows i hi
+  exact isQPMin_of_kktCheck (gram J) u.length (gram_symmSquare J _ n hJ) (gram_psd J _ n hJ) _ _
+    (by simp [prefRow]) (qpProject_kkt _ _ _ mg' hq)
+
+theorem unregSumsq_eq (ws : List (Vec α)) (cc : Vec α) (m : Nat) (hc : cc.length = m) :
+    unregSumsq ws cc = ((List.range m).map fun i =>
+      dot (rescaleW m i cc (ws.getD i [])) (rescaleW m i cc (ws.getD i []))).sum := by
+  subst hc
+  rfl
+
+theorem defect_bound_computed (J : Mat α) (m n : Nat) (hJ : MatWF J m n) (u c1 c2 : Vec α) (a b : α)
+    (hu : u.length = m) (h1 : c1.length = m) (h2 : c2.length = m)
+    (hp1 : ∀ k, k < m → 0 < c1.getD k 0) (hp2 : ∀ k, k < m → 0 < c2.getD k 0) (ha : 0 < a) (hb : 0 < b)
+    (s s1 s2 normEps regEps : α) (hs : 0 < s) (hs1 : 0 < s1) (hs2 : 0 < s2)
+    (hns : ¬ s < normEps) (hns1 : ¬ s1 < normEps) (hns2 : ¬ s2 < normEps) (hre : 0 ≤ regEps)
+    (ws : List (Vec α)) (hws : upgradRows (gram J) u = some ws)
+    (We We1 We2 : Nat → Vec α)
+    (he : ∀ i, i < m → IsQPMin (regNormGram (scaleRows (vadd (smul a c1) (smul b c2)) J) s normEps regEps)
+            (prefRow m i (u.getD i 0)) (We i))
+    (he1 : ∀ i, i < m → IsQPMin (regNormGram (scaleRows c1 J) s1 normEps regEps)
+            (prefRow m i (u.getD i 0)) (We1 i))
+    (he2 : ∀ i, i < m → IsQPMin (regNormGram (scaleRows c2 J) s2 normEps regEps)
+            (prefRow m i (u.getD i 0)) (We2 i)) :
+    dot (vsub (upOut n m (scaleRows (vadd (smul a c1) (smul b c2)) J) We)
+              (vadd (smul a (upOut n m (scaleRows c1 J) We1)) (smul b (upOut n m (scaleRows c2 J) We2))))
+        (vsub (upOut n m (scaleRows (vadd (smul a c1) (smul b c2)) J) We)
+              (vadd (smul a (upOut n m (scaleRows c1 J) We1)) (smul b (upOut n m (scaleRows c2 J) We2)))) ≤
+      3 * (m : α) * regEps *
+        (s * s * unregSumsq ws (vadd (smul a c1) (smul b c2)) + a * a * (s1 * s1) * unregSumsq ws c1 +
+          b * b * (s2 * s2) * unregSumsq ws c2) := by
+  have h0 := (upgradRows_sound' J m n hJ u hu ws hws).2
+  rw [unregSumsq_eq ws _ m ((Eqv.lincomb_length a b c1 c2 (h1.trans h2.symm)).trans h1), unregSumsq_eq ws c1 m h1,
+    unregSumsq_eq ws c2 m h2]
+  exact linearity_defect_sq J m n hJ u c1 c2 a b hu h1 h2 hp1 hp2 ha hb s s1 s2 normEps regEps hs hs1 hs2
+    hns hns1 hns2 hre (fun i => ws.getD i []) We We1 We2 h0 he he1 he2
 
 end Tjd.Agg.C09b
